@@ -212,7 +212,7 @@ def hist_units(prop, tier, seed):
     configs += [(c, [fam_kinds[i % len(fam_kinds)]]) for i, c in enumerate(hist_family(frng, 8 if tier == "quick" else 32))]
     if tier == "thorough":
         configs += sampled_configs(seed, 24)
-    cases = 1500 if tier == "quick" else 4000
+    cases = 1500 if tier == "quick" else 3000
     # developer aids (not used by the registered commands)
     if os.environ.get("VERIF_EXTRA_CFG"):
         configs += [(c, ["s111d", "s000"]) for c in os.environ["VERIF_EXTRA_CFG"].split(";")]
@@ -221,10 +221,11 @@ def hist_units(prop, tier, seed):
     if os.environ.get("VERIF_CASES"):
         cases = int(os.environ["VERIF_CASES"])
     flavours = ["plain", "asan"] if tier == "quick" else ["plain", "asan", "casan"]
+    curated = set(c for c, _ in HIST_CONFIGS)
     for cfg, kinds in configs:
         ks = list(kinds)
-        if prop in KIND_HEAVY and tier == "thorough":
-            ks = sorted(set(ks + ALL_STATEFUL + ["std"]))
+        if prop in KIND_HEAVY and tier == "thorough" and cfg in curated:
+            ks = sorted(set(ks + ALL_STATEFUL + ["std"]))  # the whole propagation-trait grid on the curated lists
         elif prop == "C08":
             pass
         for k in ks:
